@@ -43,7 +43,7 @@ def Rule.asCoded : Rule := ⟨false, false⟩
 def Rule.repaired : Rule := ⟨true, true⟩
 
 /-- The rule the model driver runs = the code in /repo today.  Flip when the patches are applied. -/
-def currentRule : Rule := Rule.asCoded
+def currentRule : Rule := ⟨false, true⟩   -- F-C18b repaired in /repo (5ed9681); F-C18a stays (pinned tests encode it)
 
 def upperStr (s : Str) : Str := s.map Char.toUpper
 def lowerStr (s : Str) : Str := s.map Char.toLower
@@ -212,7 +212,7 @@ def reservedMatch (exact : Bool) (key : Str) : Bool :=
   biocantorQualifierTerms.any fun t => if exact then t == key else t.isPrefixOf key
 
 /-- as coded today -/
-def currentFilterExact : Bool := false
+def currentFilterExact : Bool := true   -- F-C11b repaired in /repo (245297c)
 
 def filterSortWith (exact : Bool) (q : QDict) : Option QDict :=
   let r := (q.filter fun e => !reservedMatch exact e.1).map fun e => (e.1, sortStrs e.2)
